@@ -14,8 +14,11 @@ from drivers import realproc as rp
 
 def run_reload(wk, nhup, new_workers, seed, bind="tcp"):
     cfg1 = 'workers = 2\nraw_env = ["VERIF_MARKER=gen0"]\n'
-    s = rp.Server(wk, workers=2, threads=3 if wk == "gthread" else None, config=cfg1, bind=bind,
-                  args=["--graceful-timeout", "4", "--keep-alive", "1", "--timeout", "30"], name="c10")
+    # "tcp2": a second listener; long requests go to the first one, the second one stays (almost) idle
+    port2 = rp.free_port() if bind == "tcp2" else None
+    s = rp.Server(wk, workers=2, threads=3 if wk == "gthread" else None, config=cfg1, bind="tcp" if bind == "tcp2" else bind,
+                  args=["--graceful-timeout", "4", "--keep-alive", "1", "--timeout", "30"] +
+                       (["-b", "127.0.0.1:%d" % port2] if port2 else []), name="c10")
     # -w on the command line would override the file: drop it
     i = s.cmd.index("-w")
     del s.cmd[i:i + 2]
@@ -27,12 +30,12 @@ def run_reload(wk, nhup, new_workers, seed, bind="tcp"):
         s.start()
         initial = s.wait_booted(2)
 
-        def client(path, pause):
+        def client(path, pause, port=None):
             while not stop.is_set():
                 t0 = time.time()
                 rec = {"t0": t0, "path": path}
                 try:
-                    st, body, info = s.get(path, timeout=10)
+                    st, body, info = s.get(path, timeout=10, port=port)
                     pid, marker = rp.parse_ident(body)
                     rec.update(pid=pid, marker=marker)
                     if st == 200 and info["complete"]:
@@ -57,6 +60,9 @@ def run_reload(wk, nhup, new_workers, seed, bind="tcp"):
                threading.Thread(target=client, args=("/pid", 0.02), daemon=True),
                threading.Thread(target=client, args=("/sleep?t=0.5", 0.01), daemon=True),
                threading.Thread(target=client, args=("/stream?n=3&d=0.15", 0.01), daemon=True)]
+        if port2:
+            ths[1] = threading.Thread(target=client, args=("/pid", 0.4, port2), daemon=True)
+            ths.append(threading.Thread(target=client, args=("/sleep?t=1.6", 0.01), daemon=True))
         [t.start() for t in ths]
         time.sleep(0.6)
         want = 2
@@ -102,8 +108,9 @@ def run_reload(wk, nhup, new_workers, seed, bind="tcp"):
 
 
 def reload_side(ctx):
-    plan = [("sync", 1, 3, "tcp"), ("gthread", 2, 1, "localhost"), ("gevent", 1, 3, "unix")] if ctx.quick else \
-        [(wk, n, w, b) for wk in ("sync", "gthread", "gevent", "eventlet") for (n, w, b) in ((1, 3, "tcp"), (2, 1, "localhost"), (3, 2, "unix"))]
+    plan = [("sync", 1, 3, "tcp"), ("gthread", 2, 1, "localhost"), ("gevent", 1, 3, "unix"), ("gevent", 1, 2, "tcp2")] if ctx.quick else \
+        [(wk, n, w, b) for wk in ("sync", "gthread", "gevent", "eventlet")
+         for (n, w, b) in ((1, 3, "tcp"), (2, 1, "localhost"), (3, 2, "unix"), (1, 2, "tcp2"))]
     results = _parallel(plan, lambda a, i: run_reload(a[0], a[1], a[2], ctx.seed * 10 + i, bind=a[3]))
     traces = [r[0] for r in results]
     metas = [r[1] for r in results]
